@@ -14,7 +14,8 @@ variable {π β : Type} {h : Hist π}
 /-- why the eligible commit `e` is not a build, relative to the builds `bs` of the current branch -/
 def SkipRec (h : Hist π) (pl : Plug π β) (rcs : List RC) (isB : RB β → Prop) (e : Nat) : Prop :=
   h.isMatch e = false ∧
-  (pl.rel = false ∨ ∃ (cm : Commit π) (pbs : List (RB β)) (bumps : β), h.commits[e]? = some cm ∧ pbs.length ≤ 1 ∧
+  ((pl.rel = false ∧ ∀ bq, isB bq → ∀ rcq, rcs[bq.iid]? = some rcq → rcq.commit ≠ e → ¬ Anc h rcq.commit e) ∨
+   ∃ (cm : Commit π) (pbs : List (RB β)) (bumps : β), h.commits[e]? = some cm ∧ pbs.length ≤ 1 ∧
     (∀ pb ∈ pbs, isB pb ∧ ∃ rcp, rcs[pb.iid]? = some rcp ∧ rcp.commit ≠ e ∧ Anc h rcp.commit e) ∧
     (∀ bq, isB bq → ∀ rcq, rcs[bq.iid]? = some rcq → rcq.commit ≠ e → Anc h rcq.commit e →
       ∃ pb ∈ pbs, ∃ rcp, rcs[pb.iid]? = some rcp ∧ Anc h rcq.commit rcp.commit) ∧
@@ -48,8 +49,18 @@ theorem finish_skipInv (hT : h.Topo) {pl : Plug π β} {head : Nat} {st st' : St
       · exact Or.inl ⟨b, hsub b hb, hcur _ hcb, rc, getElem?_prefix hpre hrc, hce⟩
       · right
         refine ⟨hm, ?_⟩
-        rcases hs with hs | ⟨cm', pbs, bumps, h1, h2, h3, h4, h5, h6⟩
-        · exact Or.inl hs
+        rcases hs with ⟨hs, hnb⟩ | ⟨cm', pbs, bumps, h1, h2, h3, h4, h5, h6⟩
+        · left
+          refine ⟨hs, ?_⟩
+          intro bq ⟨hbq, hcq⟩ rcq hrcq hne hanc
+          rcases hnewb bq hbq hcq with ⟨hbq', hcq'⟩ | ⟨rc, hrc, hrcc⟩
+          · have hlt := w.bldLt bq hbq'
+            rw [getElem?_prefix_lt hpre hlt] at hrcq
+            exact hnb bq ⟨hbq', hcq'⟩ rcq hrcq hne hanc
+          · rw [hrc] at hrcq; cases hrcq
+            rw [hrcc] at hanc
+            obtain ⟨cl', hcl'⟩ := sm.anc_classified he hanc
+            rw [hcl] at hcl'; cases hcl'
         · right
           refine ⟨cm', pbs, bumps, h1, h2, ?_, ?_, h5, h6⟩
           · intro pb hpb
@@ -73,9 +84,16 @@ theorem finish_skipInv (hT : h.Topo) {pl : Plug π β} {head : Nat} {st st' : St
     · rw [htag, ht] at h1; cases h1
     · exact hh h1
   cases finish_cases hf with
-  | irrelevant hm hrel _ =>
-    exact hold (fun b hb => hb) (fun i hi => hi) (fun b hb hc => Or.inl ⟨hb, hc⟩)
-      (fun _ => Or.inr ⟨by rw [hmatch]; exact hm, Or.inl hrel⟩)
+  | irrelevant hm hrel hfr0 =>
+    refine hold (fun b hb => hb) (fun i hi => hi) (fun b hb hc => Or.inl ⟨hb, hc⟩)
+      (fun _ => Or.inr ⟨by rw [hmatch]; exact hm, Or.inl ⟨hrel, ?_⟩⟩)
+    intro bq ⟨hbq, _⟩ rcq hrcq hne hanc
+    have hrcq' : rp.rcs[bq.iid]? = some rcq := hrcq
+    rcases hanc.cases_parent with h1 | ⟨cm', p, hcm', hp, hyp⟩
+    · exact absurd h1 hne
+    · rw [hcm] at hcm'; cases hcm'
+      obtain ⟨r, hr, _⟩ := (hQ.reach bq.iid).mpr ⟨p, List.mem_reverse.mpr hp, rcq.commit, hyp, w.rcSel bq.iid rcq hrcq'⟩
+      rw [hfr0] at hr; cases hr
   | plain htags hnh _ _ =>
     have hb : (rp.addPlain c fr).builds = rp.builds := by simp only [Repo.addPlain]; split <;> rfl
     have hcur : ∀ i, isCurBuild (rp.addPlain c fr) i = isCurBuild rp i := by
@@ -172,6 +190,141 @@ theorem finish_skipInv (hT : h.Topo) {pl : Plug π β} {head : Nat} {st st' : St
       · show isCurBuild _ b.iid = true
         rw [hcur1]; simp [b]
       · simp [St.addBuild, Repo.addRC, b, rc]
+
+theorem skip_hyps (hT : h.Topo) (pl : Plug π β) (head : Nat) (rp0 : Repo β) :
+    VisitHyps h pl head (fun s => ((WF h s ∧ Sem h s.rp) ∧ VInv s) ∧ SkipInv h pl rp0 head s) (FrontQ h)
+      (fun s s' => Grow s.rp s'.rp) (fun _ => True) where
+  Rrefl := fun s => Grow.refl s.rp
+  Rtrans := fun h1 h2 => h1.trans h2
+  Qmono := fun hP hP' hR hQ => (sem_hyps h pl head).Qmono hP.1.1 hP'.1.1 hR hQ
+  Qnil := fun s hP => (sem_hyps h pl head).Qnil s hP.1.1
+  Qcls := fun hP hQ _ hc => (sem_hyps h pl head).Qcls hP.1.1 hQ trivial hc
+  Vstep := fun _ _ _ => trivial
+  Hfin := by
+    intro s c cm fr s' hP _ hcl hcm hQ hf
+    obtain ⟨⟨w', sm'⟩, g⟩ := (sem_hyps h pl head).Hfin hP.1.1 trivial hcl hcm hQ hf
+    exact ⟨⟨⟨⟨w', sm'⟩, finish_vinv hP.1.1.1 w' hP.1.2 hQ.lt hf⟩,
+      finish_skipInv hT hP.1.1.1 hP.1.1.2 hP.1.2 hP.2 hcl hcm hQ hf⟩, g⟩
+
+theorem SkipRec.congr {pl : Plug π β} {rcs : List RC} {P Q : RB β → Prop} (hPQ : ∀ b, P b ↔ Q b) {e : Nat}
+    (hs : SkipRec h pl rcs P e) : SkipRec h pl rcs Q e := by
+  obtain ⟨h1, h2⟩ := hs
+  refine ⟨h1, ?_⟩
+  rcases h2 with ⟨h2, hnb⟩ | ⟨cm, pbs, bumps, h3, h4, h5, h6, h7, h8⟩
+  · exact Or.inl ⟨h2, fun bq hbq => hnb bq ((hPQ bq).mpr hbq)⟩
+  · exact Or.inr ⟨cm, pbs, bumps, h3, h4, fun pb hpb => ⟨(hPQ pb).mp (h5 pb hpb).1, (h5 pb hpb).2⟩,
+      fun bq hbq => h6 bq ((hPQ bq).mpr hbq), h7, h8⟩
+
+theorem SkipRec.ext {pl : Plug π β} {rcs : List RC} {P : RB β → Prop} (hlt : ∀ b, P b → b.iid < rcs.length)
+    (ext : List RC) {e : Nat} (hs : SkipRec h pl rcs P e) : SkipRec h pl (rcs ++ ext) P e := by
+  obtain ⟨h1, h2⟩ := hs
+  refine ⟨h1, ?_⟩
+  rcases h2 with ⟨h2, hnb⟩ | ⟨cm, pbs, bumps, h3, h4, h5, h6, h7, h8⟩
+  · left
+    refine ⟨h2, ?_⟩
+    intro bq hbq rcq hrcq hne hanc
+    rw [List.getElem?_append_left (hlt bq hbq)] at hrcq
+    exact hnb bq hbq rcq hrcq hne hanc
+  · refine Or.inr ⟨cm, pbs, bumps, h3, h4, ?_, ?_, h7, h8⟩
+    · intro pb hpb
+      obtain ⟨h9, rcp, h10, h11⟩ := h5 pb hpb
+      exact ⟨h9, rcp, by rw [List.getElem?_append_left (hlt pb h9)]; exact h10, h11⟩
+    · intro bq hbq rcq hrcq hne hanc
+      rw [List.getElem?_append_left (hlt bq hbq)] at hrcq
+      obtain ⟨pb, hpb, rcp, h12, h13⟩ := h6 bq hbq rcq hrcq hne hanc
+      exact ⟨pb, hpb, rcp, by rw [List.getElem?_append_left (hlt pb (h5 pb hpb).1)]; exact h12, h13⟩
+
+/-- per branch: an eligible commit of the branch is one of its builds, or it was skipped with trivial bumps relative
+to the nearest build of the branch below it -/
+def BrSkip (h : Hist π) (pl : Plug π β) (pre : List Branch) (b : Branch) (rcs : List RC) (rb : RBranch β) : Prop :=
+  ∀ e, SpecBuild h pre b e → (∃ bd ∈ rb.rbuilds, BuildAt rcs bd e) ∨
+    SkipRec h pl rcs (fun bx => bx ∈ rb.rbuilds ∧ bx.rcommit = some bx.iid) e
+
+theorem readBranch_skip (hT : h.Topo) {pl : Plug π β} {pre : List Branch} {rp0 : Repo β} {b : Branch}
+    {rp' : Repo β} {rb : RBranch β} (inv : RepoInv h pre rp0)
+    (hr : readBranch h pl pre.isEmpty rp0 b = .ok (rp', rb)) : BrSkip h pl pre b rp'.rcs rb := by
+  obtain ⟨inv', _, _⟩ := readBranch_sem hT inv hr
+  obtain ⟨st, rheads, hv, he⟩ := readBranch_inv hr
+  have H := skip_hyps (h := h) hT pl b.head rp0
+  have ok0 : SkipInv h pl rp0 b.head ⟨rp0, Br.empty⟩ := by
+    intro e cl h1 h2; simp only at h1; rw [h2] at h1; cases h1
+  have hP0 : ((WF h (⟨rp0, Br.empty⟩ : St β) ∧ Sem h rp0) ∧ VInv (⟨rp0, Br.empty⟩ : St β)) ∧
+      SkipInv h pl rp0 b.head ⟨rp0, Br.empty⟩ := ⟨⟨⟨inv.wf, inv.sem⟩, vinv_init inv.wf⟩, ok0⟩
+  obtain ⟨⟨⟨⟨w, _⟩, _⟩, ok⟩, _, _⟩ := visit_ind hT H h.commits.length ⟨rp0, Br.empty⟩ [] [] b.head st rheads hP0
+    (H.Qnil _ hP0) trivial hv
+  have hn := visit_buildsNormal hT inv.normal hv
+  have hs := endBranch_spec he
+  obtain ⟨seen, curBuilds, _, hcb, hrbuilds, _⟩ := hs.seen
+  obtain ⟨hids, hmem⟩ := buildsOf_spec hcb
+  have hcc : ∀ c, classify rp' c = classify st.rp c := classify_congr hs.done hs.visited hs.selected
+  -- builds of the current branch in the state = builds of the branch with a build commit
+  have hiff : ∀ bx : RB β, (bx ∈ st.rp.builds ∧ CurB st.rp bx.iid) ↔ (bx ∈ rb.rbuilds ∧ bx.rcommit = some bx.iid) := by
+    intro bx
+    constructor
+    · rintro ⟨h1, h2⟩
+      have hbc : bx ∈ curBuilds := buildsOf_mem w.bldInc hcb bx h1 ((w.curIff bx.iid).mpr h2)
+      refine ⟨?_, hn bx h1⟩
+      rcases hrbuilds with h3 | ⟨fake, h3, _, _⟩
+      · rw [h3]; exact hbc
+      · rw [h3]; exact List.mem_append_left _ hbc
+    · rintro ⟨h1, h2⟩
+      have hbc : bx ∈ curBuilds := by
+        rcases hrbuilds with h3 | ⟨fake, h3, h4, _⟩
+        · rw [h3] at h1; exact h1
+        · rw [h3] at h1
+          rcases List.mem_append.mp h1 with h5 | h5
+          · exact h5
+          · simp at h5; subst h5; rw [h4] at h2; cases h2
+      exact ⟨hmem bx hbc, (w.curIff bx.iid).mp (by rw [← hids]; exact List.mem_map.mpr ⟨bx, hbc, rfl⟩)⟩
+  rw [hs.rcs]
+  intro e ⟨hel, hanc, hno⟩
+  have h0 : classify rp0 e = none := by
+    cases hc0 : classify rp0 e with
+    | none => rfl
+    | some cl0 =>
+      obtain ⟨b', hb', hab⟩ := (inv.cover e).mp ⟨cl0, hc0⟩
+      exact absurd hab (hno b' hb')
+  obtain ⟨cl, hcl⟩ := (inv'.cover e).mpr ⟨b, by simp, hanc⟩
+  rw [hcc] at hcl
+  rcases ok e cl hcl h0 hel with ⟨bd, hbd, hcur, rc, hrc, hce⟩ | hsk
+  · left
+    obtain ⟨h1, h2⟩ := (hiff bd).mp ⟨hbd, hcur⟩
+    exact ⟨bd, h1, h2, rc, hrc, hce⟩
+  · right
+    exact hsk.congr hiff
+
+theorem rgraph_skip (hT : h.Topo) {pl : Plug π β} {g : Graph β} (hg : rgraph h pl = .ok g) :
+    ∀ j b rb, (branchesOf h)[j]? = some b → g.all[j]? = some rb →
+      BrSkip h pl ((branchesOf h).take j) b g.rcs rb := by
+  unfold rgraph at hg
+  split at hg
+  · cases hg
+  · rename_i rp rbs hr
+    cases hg
+    have hstep : ∀ (pre : List Branch) (rp : Repo β) (b : Branch) (rp' : Repo β) (rb : RBranch β),
+        RepoInv h pre rp → readBranch h pl pre.isEmpty rp b = .ok (rp', rb) →
+        RepoInv h (pre ++ [b]) rp' ∧
+          (BrSkip h pl pre b rp'.rcs rb ∧ ∀ bd ∈ rb.rbuilds, bd.rcommit.isSome = true → bd.iid < rp'.rcs.length) ∧
+          ∃ ext, rp'.rcs = rp.rcs ++ ext := by
+      intro pre rp b rp' rb inv hrb
+      obtain ⟨h1, h2, h3⟩ := readBranch_sem hT inv hrb
+      exact ⟨h1, ⟨readBranch_skip hT inv hrb, fun bd hbd hs => (h2.bound bd hbd).2 hs⟩, h3⟩
+    obtain ⟨_, _, hlen, hF⟩ := readBranches_ind2 (RepoInv h)
+      (fun pre b rp' rb => BrSkip h pl pre b rp'.rcs rb ∧
+        ∀ bd ∈ rb.rbuilds, bd.rcommit.isSome = true → bd.iid < rp'.rcs.length)
+      (fun rp rp' => ∃ ext, rp'.rcs = rp.rcs ++ ext) (fun rp => ⟨[], by simp⟩)
+      (by
+        rintro a b c ⟨e1, h1⟩ ⟨e2, h2⟩
+        exact ⟨e1 ++ e2, by rw [h2, h1]; simp⟩)
+      hstep (branchesOf h) [] Repo.empty rp rbs repoInv_empty hr
+    intro j b rb hb hrb
+    obtain ⟨rpj, ⟨h1, h2⟩, ⟨ext, hext⟩⟩ := hF j b rb hb hrb
+    simp only [List.nil_append] at h1
+    rw [hext]
+    intro e he
+    rcases h1 e he with ⟨bd, hbd, hba⟩ | hsk
+    · exact Or.inl ⟨bd, hbd, (BuildAt.ext (h2 bd hbd) e).mpr hba⟩
+    · exact Or.inr (hsk.ext (fun bx hbx => h2 bx hbx.1 (by rw [hbx.2]; rfl)) ext)
 
 end
 
